@@ -579,16 +579,28 @@ impl<T: Transport, Env: UtpEnvironment> VirtualSocket<T, Env> {
 
         let mut message_too_long = None;
 
+        // With nothing in flight one segment may always go out if the peer's window allows it.
+        // Otherwise a segment larger than the congestion window (an MTU probe on a large
+        // link MTU) would wait forever: no ACK can arrive to grow the window and no timer runs.
+        let mut nothing_in_flight = self
+            .user_tx_segments
+            .calc_flight_size(self.last_sent_seq_nr)
+            == 0;
+        let remote_window = self.last_remote_window as usize;
+
         // Send the stuff we haven't sent yet, up to sender's window.
         for mut item in self
             .user_tx_segments
             .iter_mut_for_sending(Some(self.last_sent_seq_nr + 1))
         {
-            if remaining_cwnd < item.payload_size() {
+            if remaining_cwnd < item.payload_size()
+                && !(nothing_in_flight && item.payload_size() <= remote_window)
+            {
                 METRICS.send_window_exhausted.increment(1);
                 trace_every_ms!(100, "remote recv window exhausted");
                 break;
             }
+            nothing_in_flight = false;
 
             match send_data!(self, cx, header, item) {
                 Ok(true) => {
@@ -599,7 +611,7 @@ impl<T: Transport, Env: UtpEnvironment> VirtualSocket<T, Env> {
                         remaining_cwnd,
                         "sent ST_DATA"
                     );
-                    remaining_cwnd -= item.payload_size();
+                    remaining_cwnd = remaining_cwnd.saturating_sub(item.payload_size());
                     sent_count += 1;
                 }
                 // Transport was pending, need to retry
